@@ -212,7 +212,7 @@ def run(ctx):
     ctx.assumptions = ["reference evaluator + substitution model template.replace('{}', path)", "starting point spelled 'r' (basename well defined)",
                        "'{}' in the command name itself not judged"]
     nw = common.NCPU
-    n = ctx.scale(480, 16000)
+    n = ctx.scale(480, 128000)
     ctx.pmap(worker, [(k, n // nw, ctx.seed) for k in range(nw)])
     for key in ("kind:-exec", "kind:-execdir", "missing_command_runs", "templates_with_0_braces", "templates_with_3_braces", "shape:negated", "child_outcome:SIGKILL",
                 "child_outcome:SIGTERM", "child_outcome:exit3", "child_outcome:exit0", "trees_with_non_utf8_names",
